@@ -70,7 +70,7 @@ SPEC = {
         "w3cdate": "C07_parse_w3c_date_total / C07_to_int_total_bounded / C07_w3c_groups_bounded",
         "deep": "the property text (terminates on every input, no crash); components of C05/C06 and the tested-only ones",
     },
-    "rule": "one SplitMix64 seed; regression corpus first; deterministic boundary streams (go/cmd/c07/edge.go, ~28000 inputs, tag edge): the end of input after EVERY BYTE of well-formed inputs of every component (the CSS constructs of go/cssedge covering each scanner and look-ahead of the tokenizer, one valid value per property / descriptor, whole stylesheets, selectors, @page selectors, An+B, media queries, colours, data: URLs, percent-encoded strings, HTML and SVG attribute values), W3C dates of <meta> with every numeric field of every shape replaced by digit runs of every length 0..300 and the int64 / uint64 boundary numbers (through parseW3cDate and through NewHTML + GetMetadata) and exhaustive neighbourhoods (per tokenizer scanner: entering heads + all short strings over the symbols it distinguishes; all strings of length <= 4 over {%, hex, non-hex} for the percent decoders; data: + all short strings over the separators of parseDataURL); then the random streams: property values = sequences of atoms each property accepts alone (discovered at start-up from a dictionary harvested from /repo's validator sources) then mutated (delete, duplicate, swap unit, f(), var() insertion, huge numbers, nesting, stray delimiters, truncation); at-rules, selectors, SVG documents, data: URLs, HTML attribute documents from pools of valid and malformed fragments with byte-level mutations; non-trivial = non-empty input; distinct by (component, input)",
+    "rule": "one SplitMix64 seed; regression corpus first; deterministic boundary streams (go/cmd/c07/edge.go, ~28000 inputs, tag edge): the end of input after EVERY BYTE of well-formed inputs of every component (the CSS constructs of go/cssedge covering each scanner and look-ahead of the tokenizer, one valid value per property / descriptor, whole stylesheets, selectors, @page selectors, An+B, media queries, colours, data: URLs, percent-encoded strings, HTML and SVG attribute values), W3C dates of <meta> with every numeric field of every shape replaced by digit runs of every length 0..300 and the int64 / uint64 boundary numbers (through parseW3cDate and through NewHTML + GetMetadata) control characters (FF CR LF CRLF NUL TAB VT DEL ...) raw in every lexical context of the selector parser (60 texts x 12 characters, alone and as a rule prelude), every An+B form with one extra token of every kind before / after it, table span attributes (every integer around the bounds 0 1 1000 65534 of colspan / rowspan / span in every spelling, through /repo's box constructors) and exhaustive neighbourhoods (per tokenizer scanner: entering heads + all short strings over the symbols it distinguishes; all strings of length <= 4 over {%, hex, non-hex} for the percent decoders; data: + all short strings over the separators of parseDataURL); then the random streams: property values = sequences of atoms each property accepts alone (discovered at start-up from a dictionary harvested from /repo's validator sources) then mutated (delete, duplicate, swap unit, f(), var() insertion, huge numbers, nesting, stray delimiters, truncation); at-rules, selectors, SVG documents, data: URLs, HTML attribute documents from pools of valid and malformed fragments with byte-level mutations; non-trivial = non-empty input; distinct by (component, input)",
 }
 MANIFEST = {
     "text": "Coq totality theorems (result is Ok for ALL inputs, every slice/index a Panic site, loops on fuel) for hand ports of percent-decoding, data: URI splitting, An+B, @page selectors, HTML integer attributes and the SVG attribute parsers; refutations with witnesses for the code as found (@page :nth(of), preserveAspectRatio=\"abc\"); each model is compared with /repo on generated inputs on every run. Validators / expanders / descriptor parsers and whole-document entry points are TESTED on every run (30k malformed inputs in watchdog-ed workers), not proved.",
